@@ -36,33 +36,42 @@ def rcfg(h):
     return val(h._params.remote_cfg)
 
 
+def opt(x, f, if_none):
+    """formula over an optional: f(value) when present, `if_none` when None"""
+    from pyvc.values import SOpt
+    if x is None:
+        return if_none
+    if isinstance(x, SOpt):
+        inner = f(x.val)
+        return And_(Implies_(x.isnone, if_none), Implies_(Not_(x.isnone), inner))
+    return f(x)
+
+
 def dest_inv(h):
     st, p = h.states, h._params
     fp, ap, pa = p.fp, p.acked_params, p.positive_ack_params
-    rc = rcfg(h)
     m = mode(h)
-    busy_steps = [s for s in STEP if s is not STEP.IDLE]
+    present = lambda x: opt(x, lambda v: True, False)  # noqa: E731
     L = [
         ("D1.idle_iff", iff(eq(st.state, IDLE), eq(st.step, STEP.IDLE))),
         ("D1.state_dom", one_of(st.state, [IDLE, BUSY])),
-        ("D2.busy_has_ids", Implies_(ne(st.state, IDLE), And_(Not_(isnone(p.transaction_id)), Not_(isnone(p.remote_cfg))))),
+        ("D2.busy_has_ids", Implies_(ne(st.state, IDLE), And_(present(p.transaction_id), present(p.remote_cfg)))),
         ("D3.ready_count", to_z3_int(st._num_packets_ready) == h._pdus_to_be_sent.length()),
         ("cfg.table", table_inv(table_of(h))),
         ("cfg.local_id", ubf_inv(h.cfg.local_entity_id)),
-        ("cfg.remote", Implies_(Not_(isnone(p.remote_cfg)), remote_cfg_inv(rc))),
+        ("cfg.remote", opt(p.remote_cfg, remote_cfg_inv, True)),
         ("D4.finished_ack_wait", Implies_(eq(st.step, STEP.WAITING_FOR_FINISHED_ACK), And_(
-            eq(m, ACK), Not_(isnone(pa.ack_timer)), 0 <= pa.ack_counter,
-            pa.ack_counter < rc.positive_ack_timer_expiration_limit))),
+            eq(m, ACK), present(pa.ack_timer), 0 <= pa.ack_counter,
+            opt(p.remote_cfg, lambda rc: pa.ack_counter < rc.positive_ack_timer_expiration_limit, False)))),
         ("D5.check_limit_wait", Implies_(eq(st.step, STEP.RECV_FILE_DATA_WITH_CHECK_LIMIT_HANDLING), And_(
-            eq(m, UNACK), Not_(isnone(p.check_timer)), Not_(isnone(fp.file_size_eof)), 0 <= p.current_check_count,
-            p.current_check_count < rc.check_limit))),
+            eq(m, UNACK), present(p.check_timer), present(fp.file_size_eof), 0 <= p.current_check_count,
+            opt(p.remote_cfg, lambda rc: p.current_check_count < rc.check_limit, False)))),
         ("D6.deferred", Implies_(B(ap.deferred_lost_segment_detection_active), And_(
-            eq(m, ACK), Not_(isnone(fp.file_size_eof)),
-            Implies_(Not_(isnone(ap.procedure_timer)), And_(0 <= ap.nak_activity_counter,
-                                                           ap.nak_activity_counter < rc.nak_timer_expiration_limit))))),
-        ("D6.timer_only_deferred", Implies_(Not_(isnone(ap.procedure_timer)), B(ap.deferred_lost_segment_detection_active))),
+            eq(m, ACK), present(fp.file_size_eof),
+            opt(ap.procedure_timer, lambda t: And_(0 <= ap.nak_activity_counter, opt(
+                p.remote_cfg, lambda rc: ap.nak_activity_counter < rc.nak_timer_expiration_limit, False)), True)))),
+        ("D6.timer_only_deferred", opt(ap.procedure_timer, lambda t: B(ap.deferred_lost_segment_detection_active), True)),
         ("D7.counters", And_(fp.progress >= 0, ap.last_start_offset >= 0, ap.last_start_offset <= ap.last_end_offset)),
-        ("D7.tracker_struct", ap.lost_seg_tracker.lost_segments.d.wf()),
     ]
     return L
 
@@ -371,4 +380,251 @@ C("_check_limit_handling", arg_types=SELF, props=("C13",), result=None,
               eq(_fpar(n.self).delivery_code, DeliveryCode.DATA_INCOMPLETE))))), ("C13", "C14")),
       Clause("C13.no_pdu_no_indication_here", lambda o, n, r: len(emitted(n)) == 0 and len(inds(n)) == 0, ("C13",)),
   ] + inv_clauses(("C13",)),
+  modular=False)
+
+
+# ==============================================================================================
+# well-formed inbound PDUs
+# ==============================================================================================
+from stubs.cfdp import PDU_CLASSES  # noqa: E402
+from spacepackets.cfdp.pdu import EofPdu, FileDataPdu, MetadataPdu  # noqa: E402
+from spacepackets.cfdp import TransactionId, Direction, PduType, EntityIdTlv  # noqa: E402
+from pyvc.values import blen, SBytes  # noqa: E402
+
+
+def conf_wf(c):
+    return And_(ubf_inv(c.source_entity_id), ubf_inv(c.dest_entity_id), ubf_inv(c.transaction_seq_num))
+
+
+def pdu_wf(p):
+    """class invariant of a PDU object produced by the library (constructor or unpack)"""
+    if p is None:
+        return True
+    fs = [conf_wf(p.pdu_conf)]
+    if p.cls is FileDataPdu:
+        fs += [p.offset >= 0]
+    elif p.cls is EofPdu:
+        fs += [p.file_size >= 0, p.file_checksum.length() == 4]
+    elif p.cls is MetadataPdu:
+        fs += [p.file_size >= 0]
+    elif p.cls is NakPdu:
+        fs += [p.start_of_scope >= 0, p.end_of_scope >= 0]
+    elif p.cls is AckPdu:
+        fs += [one_of(p.directive_code_of_acked_pdu, [DirectiveType.EOF_PDU, DirectiveType.FINISHED_PDU])]
+    return And_(*fs)
+
+
+ANY_PDU = T.OneOf(PDU_CLASSES, allow_none=True)
+
+
+def id_bytes(u):
+    from stubs.cfdp import ubf_bytes
+    return SBytes(ubf_bytes(to_z3_int(u.value), to_z3_int(u.byte_len)))
+
+
+def tid_eq(a, b):
+    return And_(Eq_(a.source_id.value, b.source_id.value), Eq_(a.seq_num.value, b.seq_num.value))
+
+
+# ==============================================================================================
+# C12: cancel request at the receiver
+# ==============================================================================================
+def _cr_match(o):
+    h = o.self
+    return And_(ne(h.states.state, IDLE), Not_(isnone(h._params.transaction_id)),
+                tid_eq(o.transaction_id, val(h._params.transaction_id)))
+
+
+C("cancel_request", arg_types={**SELF, "transaction_id": T.Obj(TransactionId)}, props=("C12",), result=T.Bool,
+  requires=REQ_INV,
+  modifies=["self._params.completion_disposition", "self._params.finished_params.condition_code",
+            "self._params.finished_params.fault_location", "self.states.step"],
+  ensures=[
+      Clause("C12.dest.returns_true_iff_active_id", lambda o, n, r: iff(r, _cr_match(o)), ("C12",)),
+      Clause("C12.dest.cancel_effect", lambda o, n, r: Implies_(r, And_(
+          eq(n.self._params.completion_disposition, CANCELED),
+          eq(_fpar(n.self).condition_code, CC.CANCEL_REQUEST_RECEIVED),
+          opt(_fpar(n.self).fault_location, lambda t: Eq_(t.entity_id, id_bytes(o.self.cfg.local_entity_id)), False),
+          step_is(n.self, STEP.TRANSFER_COMPLETION))), ("C12",)),
+      Clause("C12.dest.refused_changes_nothing", lambda o, n, r: Implies_(Not_(r), And_(
+          unchanged(o, n, "states.step", "_params.completion_disposition", "_params.finished_params.condition_code"))), ("C12",)),
+      Clause("C12.dest.silent", lambda o, n, r: len(n.trace) == 0, ("C12",)),
+  ] + inv_clauses(("C12",)),
+  raises=[RaiseClause("C10.unretrieved_truthful", D.UnretrievedPdusToBeSent, iff=True,
+                      when=lambda o: And_(ne(o.self.states.state, IDLE), o.self._pdus_to_be_sent.length() > 0),
+                      props=("C10", "C12"), modifies=[])],
+  modular=False)
+
+
+# ==============================================================================================
+# notice of completion / finished PDU (C05 deletion, C12 disposition, C15 finished indication)
+# ==============================================================================================
+def _noc_deletes(o):
+    h = o.self
+    return And_(eq(h._params.completion_disposition, CANCELED), B(rcfg(h).disposition_on_cancellation),
+                eq(_fpar(h).delivery_code, DeliveryCode.DATA_INCOMPLETE))
+
+
+def _fin_ind_ok(o, n):
+    """the Transaction-Finished indication: issued iff the switch is on; carries the transaction's id and the
+    very finished_params object that the Finished PDU will carry"""
+    sw = B(o.self.cfg.indication_cfg.transaction_finished_indication_required)
+    es = inds(n, "transaction_finished_indication")
+    if len(es) == 0:
+        return Not_(sw)
+    if len(es) != 1:
+        return False
+    par = es[0]["args"][0]
+    tid = par.transaction_id
+    return And_(sw, tid_eq(tid, val(o.self._params.transaction_id)),
+                par.finished_params.oid == o.self._params.finished_params.oid)
+
+
+NOC_MOD = ["self._params.finished_params.file_status"]
+
+C("_notice_of_completion", arg_types=SELF, props=("C12", "C15", "C05"), result=None,
+  requires=REQ_INV + [("busy", lambda o: ne(o.self.states.state, IDLE))],
+  modifies=NOC_MOD,
+  ensures=[
+      Clause("C12.disposition_deletes_exactly_when_configured", lambda o, n, r: (
+          (len(vfs_ops(n)) == 1 and vfs_ops(n)[0]["op"] == "delete_file" and And_(
+              _noc_deletes(o), Eq_(vfs_ops(n)[0]["path"], o.self._params.fp.file_name),
+              eq(_fpar(n.self).file_status, FileStatus.DISCARDED_DELIBERATELY)))
+          if len(vfs_ops(n)) > 0 else And_(Not_(_noc_deletes(o)),
+                                          Eq_(_fpar(n.self).file_status, _fpar(o.self).file_status))), ("C12", "C05")),
+      Clause("C15.finished_indication_faithful", lambda o, n, r: _fin_ind_ok(o, n), ("C15",)),
+      Clause("C15.no_other_indication_no_pdu", lambda o, n, r: len(inds(n)) == len(inds(n, "transaction_finished_indication"))
+             and len(emitted(n)) == 0 and len(fault_cbs(n)) == 0, ("C15",)),
+  ],
+  modular=False)
+
+
+def _needs_finished_pdu(o):
+    h = o.self
+    return Or_(And_(eq(mode(h), UNACK), B(h._params.closure_requested)), eq(mode(h), ACK))
+
+
+C("_handle_transfer_completion", arg_types=SELF, props=("C12", "C15", "C02"), result=None,
+  requires=REQ_INV + [("in_completion", lambda o: And_(ne(o.self.states.state, IDLE), step_is(o.self, STEP.TRANSFER_COMPLETION)))],
+  modifies=NOC_MOD + ["self.states.step", "self.states.state", "self._params"],
+  ensures=[
+      Clause("C15.finished_indication_faithful", lambda o, n, r: _fin_ind_ok(o, n), ("C15", "C12")),
+      Clause("C12.reported_condition_is_current", lambda o, n, r: (
+          len(inds(n, "transaction_finished_indication")) == 0 or
+          Eq_(inds(n, "transaction_finished_indication")[0]["args"][0].finished_params.condition_code,
+              _fpar(o.self).condition_code)), ("C12", "C14")),
+      Clause("C02.next_step", lambda o, n, r: And_(
+          Implies_(_needs_finished_pdu(o), And_(step_is(n.self, STEP.SENDING_FINISHED_PDU), n.self._params.oid == o.self._params.oid)),
+          Implies_(Not_(_needs_finished_pdu(o)), And_(step_is(n.self, STEP.IDLE), eq(n.self.states.state, IDLE)))), ("C02", "C12")),
+      Clause("C05.only_delete_of_dest", lambda o, n, r: all(
+          e["op"] == "delete_file" for e in vfs_ops(n)) and And_(*[Eq_(e["path"], o.self._params.fp.file_name) for e in vfs_ops(n)]), ("C05",)),
+  ] + inv_clauses(("C02",)),
+  modular=False)
+
+
+C("_prepare_finished_pdu", arg_types=SELF, props=("C15", "C10"), result=None,
+  requires=REQ_INV + [("busy", lambda o: ne(o.self.states.state, IDLE))],
+  modifies=["self._pdus_to_be_sent", "self.states._num_packets_ready"],
+  ensures=[
+      Clause("C15.finished_pdu_carries_live_params", lambda o, n, r: _fin_pdu_is_live(n) and len(emitted(n)) == 1 and And_(
+          eq(emitted(n)[0].pdu_conf.direction, Direction.TOWARDS_SENDER),
+          Eq_(emitted(n)[0].pdu_conf.trans_mode, mode(o.self)),
+          Eq_(emitted(n)[0].pdu_conf.transaction_seq_num.value, o.self._params.pdu_conf.transaction_seq_num.value),
+          Eq_(emitted(n)[0].pdu_conf.source_entity_id.value, o.self._params.pdu_conf.source_entity_id.value)), ("C15", "C12")),
+  ] + inv_clauses(("C10",)),
+  raises=[RaiseClause("C10.unretrieved_truthful", D.UnretrievedPdusToBeSent, iff=True,
+                      when=lambda o: o.self._pdus_to_be_sent.length() > 0, props=("C10",), modifies=[])],
+  modular=False)
+
+
+# ==============================================================================================
+# EOF handling (C12 EOF(cancel), C13 deferral, C01 EOF fields, C15 EOF-Recv)
+# ==============================================================================================
+def _eof_ind_ok(o, n):
+    sw = B(o.self.cfg.indication_cfg.eof_recv_indication_required)
+    es = inds(n, "eof_recv_indication")
+    if len(es) == 0:
+        return Not_(sw)
+    if len(es) != 1:
+        return False
+    return And_(sw, tid_eq(es[0]["args"][0], val(o.self._params.transaction_id)))
+
+
+def _eof_is_cancel(o):
+    return ne(o.eof_pdu.condition_code, CC.NO_ERROR)
+
+
+def _eof_ack_emitted(o, n):
+    ps = emitted(n)
+    if len(ps) != 1 or ps[0].cls is not AckPdu:
+        return False
+    a = ps[0]
+    return And_(eq(a.directive_code_of_acked_pdu, DirectiveType.EOF_PDU), eq(a.pdu_conf.direction, Direction.TOWARDS_SENDER),
+                Eq_(a.condition_code_of_acked_pdu, _fpar(n.self).condition_code),
+                Eq_(a.pdu_conf.transaction_seq_num.value, o.self._params.pdu_conf.transaction_seq_num.value))
+
+
+def _ck_matches_after_eof(o):
+    """checksum of the destination file over the progress known when the EOF is processed == EOF checksum"""
+    p = o.self._params
+    return Eq_(fs_checksum(FS0, to_z3_int(p.checksum_type), p.fp.file_name.p, to_z3_int(p.fp.progress)), o.eof_pdu.file_checksum.b)
+
+
+EOF_MOD = ["self._params.fp.crc32", "self._params.fp.file_size_eof", "self._params.fp.progress",
+           "self._params.completion_disposition", "self._params.finished_params.condition_code",
+           "self._params.finished_params.fault_location", "self._params.finished_params.delivery_code",
+           "self.states.step", "self._pdus_to_be_sent", "self.states._num_packets_ready",
+           "self._params.acked_params.lost_seg_tracker.lost_segments", "self._params.check_timer",
+           "self._params.current_check_count"]
+
+C("_handle_eof_pdu", arg_types={**SELF, "eof_pdu": T.Obj(EofPdu)}, props=("C12", "C13", "C01"), result=T.Opt(T.Bool),
+  requires=REQ_INV + DEFAULT + [
+      ("receiving", lambda o: And_(ne(o.self.states.state, IDLE),
+                                   step_is(o.self, STEP.RECEIVING_FILE_DATA, STEP.RECV_FILE_DATA_WITH_CHECK_LIMIT_HANDLING))),
+      ("pdu_wf", lambda o: pdu_wf(o.eof_pdu)),
+      ("not_cancelled", lambda o: ne(o.self._params.completion_disposition, CANCELED)),
+      ("file_params", lambda o: Not_(B(o.self._params.fp.metadata_only))),
+      ("incomplete_so_far", lambda o: eq(_fpar(o.self).delivery_code, DeliveryCode.DATA_INCOMPLETE)),
+  ],
+  modifies=EOF_MOD,
+  ensures=[
+      Clause("C01.eof_fields_stored", lambda o, n, r: And_(
+          opt(n.self._params.fp.crc32, lambda c: Eq_(c, o.eof_pdu.file_checksum), False),
+          opt(n.self._params.fp.file_size_eof, lambda s: Eq_(s, o.eof_pdu.file_size), False)), ("C01",)),
+      Clause("C15.eof_recv_indication", lambda o, n, r: _eof_ind_ok(o, n), ("C15",)),
+      Clause("C12.eof_cancel_finishes_with_eof_condition", lambda o, n, r: Implies_(_eof_is_cancel(o), And_(
+          eq(n.self._params.completion_disposition, CANCELED),
+          Eq_(_fpar(n.self).condition_code, o.eof_pdu.condition_code),
+          opt(_fpar(n.self).fault_location, lambda t: Eq_(t.entity_id, id_bytes(rcfg(o.self).entity_id)), False),
+          eq(_fpar(n.self).delivery_code, DeliveryCode.DATA_INCOMPLETE),
+          Implies_(eq(mode(o.self), UNACK), And_(step_is(n.self, STEP.TRANSFER_COMPLETION), len(emitted(n)) == 0)),
+          Implies_(eq(mode(o.self), ACK), And_(step_is(n.self, STEP.SENDING_EOF_ACK_PDU), _eof_ack_emitted(o, n))),
+          no_fault(n))), ("C12",)),
+      Clause("C13.eof_before_data_defers_completion", lambda o, n, r: Implies_(And_(
+          Not_(_eof_is_cancel(o)), eq(mode(o.self), UNACK), o.self._params.fp.progress <= o.eof_pdu.file_size,
+          ne(o.self._params.checksum_type, ChecksumType.NULL_CHECKSUM), Not_(_ck_matches_after_eof(o))), And_(
+          step_is(n.self, STEP.RECV_FILE_DATA_WITH_CHECK_LIMIT_HANDLING), n.self._params.current_check_count == 0,
+          opt(n.self._params.check_timer, lambda t: Not_(B(t.expired)), False),
+          # (the unchanged code declares the checksum failure twice here: once in _checksum_verify, once in
+          #  _handle_no_error_eof; both are ignore callbacks for the same condition)
+          len(fault_cbs(n)) >= 1 and all(e["name"] == "ignore_cb" for e in fault_cbs(n)) and And_(
+              *[Eq_(e["cond"], CC.FILE_CHECKSUM_FAILURE) for e in fault_cbs(n)]),
+          len(inds(n, "transaction_finished_indication")) == 0, len(emitted(n)) == 0,
+          eq(_fpar(n.self).delivery_code, DeliveryCode.DATA_INCOMPLETE))), ("C13",)),
+      Clause("C02.complete_eof_unacked", lambda o, n, r: Implies_(And_(
+          Not_(_eof_is_cancel(o)), eq(mode(o.self), UNACK), o.self._params.fp.progress <= o.eof_pdu.file_size,
+          Or_(eq(o.self._params.checksum_type, ChecksumType.NULL_CHECKSUM), _ck_matches_after_eof(o))), And_(
+          step_is(n.self, STEP.TRANSFER_COMPLETION), eq(_fpar(n.self).delivery_code, DeliveryCode.DATA_COMPLETE),
+          eq(_fpar(n.self).condition_code, CC.NO_ERROR), no_fault(n), len(emitted(n)) == 0)), ("C02", "C01")),
+      Clause("C02.eof_acked_mode_is_acknowledged", lambda o, n, r: Implies_(And_(
+          Not_(_eof_is_cancel(o)), eq(mode(o.self), ACK), o.self._params.fp.progress <= o.eof_pdu.file_size), And_(
+          step_is(n.self, STEP.SENDING_EOF_ACK_PDU), _eof_ack_emitted(o, n), no_fault(n),
+          eq(_fpar(n.self).delivery_code, DeliveryCode.DATA_INCOMPLETE))), ("C02", "C03")),
+      Clause("C14.file_size_error_on_overrun", lambda o, n, r: Implies_(And_(
+          Not_(_eof_is_cancel(o)), o.self._params.fp.progress > o.eof_pdu.file_size), And_(
+          len(fault_cbs(n)) >= 1 and Eq_(fault_cbs(n)[0]["cond"], CC.FILE_SIZE_ERROR),
+          eq(n.self._params.completion_disposition, CANCELED),
+          eq(_fpar(n.self).condition_code, CC.FILE_SIZE_ERROR))), ("C14", "C01")),
+      Clause("C05.eof_does_not_touch_files", lambda o, n, r: all(e["op"] == "calculate_checksum" for e in vfs_ops(n)), ("C05",)),
+  ] + inv_clauses(("C12",)),
   modular=False)
